@@ -973,3 +973,67 @@ def d4(ctx):
               'both lookup forms substitute the insertion-ordered entry for dict and for defaultdict',
               'registry.get substitutes insertion-ordered entries for %s (listing) and %s (by class)'
               % (sorted(kinds.get('listing', ())), sorted(kinds.get('by-class', ()))), mod.loc(fn))
+
+
+@rule('D5', floor=4, title='a treespec records its namespace exactly when a custom node was met (or its own dict-order mode is on)')
+def d5(ctx):
+    """The flatten steps return "a custom node was found below": false to begin with, set to true
+    only in the Custom arm, and otherwise only OR-ed with the answers of the recursive calls.  A
+    step that starts from true, or sets the flag for another kind, makes every treespec carry the
+    namespace - `tree_flatten` and `tree_flatten_with_path` (or two trees of the same shape) then
+    give treespecs with different `namespace` / repr although they compare equal."""
+    prog = ctx.cxx()
+    from .common import strip_casts
+    from ..cfg import const_eval as ce
+    for name in ('PyTreeSpec::FlattenIntoImpl', 'PyTreeSpec::FlattenIntoWithPathImpl'):
+        for f in [x for x in prog.by_suffix(name) if not x.dependent]:
+            rets = [r for r in f.body.walk() if r.kind == 'ReturnStmt' and r.kids]
+            flags = {member_path(strip_casts(r.kids[0])) for r in rets}
+            ctx.require(len(flags) == 1 and None not in flags, '%s: the returned flag is not one local' % inst(f))
+            flag = flags.pop()
+            decl = [v for v in f.body.find('VarDecl') if v.name == flag]
+            problems = []
+            if not (len(decl) == 1 and decl[0].kids and ce(decl[0].kids[-1]) is False):
+                problems.append('the flag does not start as false')
+            sws = kind_switches(f)
+            parent = enclosing_map(f.body)
+            fam = [f] + list(prog.lambdas_of(f))
+            for g in fam:
+                if g.body is None:
+                    continue
+                for n in g.body.walk():
+                    tgt = val = None
+                    if n.kind == 'BinaryOperator' and n.op == '=' and len(n.kids) == 2:
+                        tgt, val, op = n.kids[0], n.kids[1], '='
+                    elif n.kind == 'CompoundAssignOperator' and len(n.kids) == 2:
+                        tgt, val, op = n.kids[0], n.kids[1], n.op
+                    if tgt is None or member_path(strip_casts(tgt)) != flag:
+                        continue
+                    if op == '=' and ce(val) is True:
+                        # only inside the Custom arm
+                        arm_ok = False
+                        for a in ancestors(n, parent) if g is f else ():
+                            if a.kind == 'CaseStmt' and 'Custom' in a.text(3):
+                                arm_ok = True
+                        if not arm_ok and g is f:
+                            # the arm may be reached through fall-through labels: use the arms table
+                            from .common import kind_switches as _ks
+                            from ..cfg import switch_arms
+                            for sw in sws:
+                                arms, _ = switch_arms(sw)
+                                for k_, stmts in arms.items():
+                                    if any(x is n for s_ in stmts for x in s_.walk()):
+                                        arm_ok = (k_ == 'Custom') and all(
+                                            kk == 'Custom' for kk, ss in arms.items() if ss is stmts)
+                        if not arm_ok:
+                            problems.append('the flag is set to true outside the Custom arm (%s)' % n.loc)
+                    elif op == '|=':
+                        t = callee_func(prog, g, strip_casts(val)) if strip_casts(val).kind in CALL_KINDS else None
+                        if t is None or t.qualname != f.qualname:
+                            problems.append('the flag is OR-ed with `%s`, not with the answer of the recursive call' % val.text(3))
+                    else:
+                        problems.append('the flag is written as `%s`' % n.text(3)[:60])
+            ctx.check('%s/found-custom' % short(f), not problems,
+                      '%s: "custom node found" starts false, is set in the Custom arm, and is OR-ed with '
+                      'the recursive answers' % inst(f),
+                      '%s: %s' % (inst(f), '; '.join(problems)), f.loc)
